@@ -215,7 +215,12 @@ func (r *BumpRequest) MaxFeeRateAllowed() (chainfee.SatPerKWeight, error) {
 	// sets the budget to be proportional to the input value, the fee rate
 	// can be very high and we need to make sure it doesn't exceed the max
 	// fee rate.
-	maxFeeRateAllowed := chainfee.NewSatPerKWeight(r.Budget, size)
+	//
+	// NOTE: The budget fee rate is rounded down, as a rate rounded up
+	// would result in a fee that exceeds the budget.
+	maxFeeRateAllowed := chainfee.SatPerKWeight(
+		int64(r.Budget) * 1000 / int64(size),
+	)
 	if maxFeeRateAllowed > r.MaxFeeRate {
 		log.Debugf("Budget feerate %v exceeds MaxFeeRate %v, use "+
 			"MaxFeeRate instead, txWeight=%v", maxFeeRateAllowed,
